@@ -27,9 +27,12 @@ At(p, b, off) == {c \in p : c.b = b /\ c.off = off}
 Insert(p, c) == (p \ At(p, c.b, c.off)) \cup {c}                  \* dict assignment pool_mem[addr] = ...
 Min(x, y) == IF x < y THEN x ELSE y
 
-\* get_mem_overlapping: probe the addresses e + i for i in [-7, n) and keep the cells found there
-\* unless they end before e ("too long" test: e - x >= size of the cell)
-Window(p, b, off, n) == {c \in p : c.b = b /\ (c.off - off) \in (-7)..(n - 1) /\ ~((off - c.off) >= c.n)}
+\* get_mem_overlapping: probe the addresses e + i for i in [-(MaxCellBytes - 1), n) and keep the cells found there
+\* unless they end before e ("too long" test: e - x >= size of the cell).  The code hard-wires the widest cell it
+\* expects: 16 bytes (an SSE operand) since fix 0ea0192, 8 bytes before - with 8, a 128-bit store is invisible to
+\* accesses 8..15 bytes above its start (SymPoolWideSelf shows NoOverlap/LoadOK failing for MaxCellBytes = 8).
+MaxCellBytes == 16
+Window(p, b, off, n) == {c \in p : c.b = b /\ (c.off - off) \in (1 - MaxCellBytes)..(n - 1) /\ ~((off - c.off) >= c.n)}
 
 \* substract_mems(a, new): what is left of cell a when [off, off + n) is overwritten
 Subtract(a, off, n) ==
